@@ -142,3 +142,10 @@ def run(ctx):
     R.pop_fn, R.drain_fn, R.mark_fn, R.remove_fn
     r11_1(ctx, R)
     r11_2(ctx, R)
+    for fn_ in (c01.r1_1, c01.r1_2, c01.r1_3, c01.r1_4, c01.r1_5, c01.r1_8):
+        fn_(ctx, R)
+    ctx.rule("R1.x", "see C01 (shared): wake/poll handshake -- a source whose wake-up is lost never yields its remaining items")
+    c05.r5_1(ctx, R)
+    ctx.rule("R5.1", "see C05 R5.1 (shared): only the Occupied slot of the popped index is polled")
+    c02.r2_3(ctx, R)
+    ctx.rule("R2.3", "see C02 R2.3 (shared): slot-map insert/remove all-or-none")
